@@ -249,8 +249,11 @@ func (b *Body) JustAttributes() (hcl.Attributes, hcl.Diagnostics) {
 	attrs := make(hcl.Attributes)
 	var diags hcl.Diagnostics
 
-	if len(b.Blocks) > 0 {
-		example := b.Blocks[0]
+	for _, example := range b.Blocks {
+		if _, hidden := b.hiddenBlocks[example.Type]; hidden {
+			// already consumed by an earlier PartialContent call
+			continue
+		}
 		diags = append(diags, &hcl.Diagnostic{
 			Severity: hcl.DiagError,
 			Summary:  fmt.Sprintf("Unexpected %q block", example.Type),
@@ -260,6 +263,7 @@ func (b *Body) JustAttributes() (hcl.Attributes, hcl.Diagnostics) {
 		// we will continue processing anyway, and return the attributes
 		// we are able to find so that certain analyses can still be done
 		// in the face of errors.
+		break
 	}
 
 	if b.Attributes == nil {
